@@ -5,6 +5,7 @@ package main
 import (
 	"bytes"
 	"compress/flate"
+	"crypto/sha256"
 	"encoding/base64"
 	"fmt"
 	"net/http"
@@ -26,8 +27,8 @@ type lresp struct {
 	Issuer *string
 	Status string
 	Nested []string // StatusCode elements nested below the top-level one, outermost first (must not matter)
-	Sig    string // none | idp | attacker | idp-then-edit | moved
-	Kind   string // ok | garbage-b64 | garbage-xml | noroot | other-root | inflate-bomb
+	Sig    string   // none | idp | attacker | idp-then-edit | moved
+	Kind   string   // ok | garbage-b64 | garbage-xml | noroot | other-root | inflate-bomb
 }
 
 func (c *Ctx) logoutXML(l lresp) []byte {
@@ -73,6 +74,18 @@ func (c *Ctx) logoutXML(l lresp) []byte {
 		sig := el.FindElement("./Signature")
 		el.RemoveChild(sig)
 		el.FindElement("./Status").AddChild(sig)
+	case "attacker+idpcert", "idp+attackercert":
+		// KeyInfo lists two certificates: the signer's own first (goxmldsig verifies with the first), then another
+		signer, other := "attacker", "idp"
+		if l.Sig == "idp+attackercert" {
+			signer, other = "idp", "attacker"
+		}
+		s, err := b.signCtx(signer, "").SignEnveloped(el)
+		must(err)
+		el = s
+		if x := el.FindElement("./Signature/KeyInfo/X509Data"); x != nil {
+			x.CreateElement("ds:X509Certificate").SetText(base64.StdEncoding.EncodeToString(c.key(other).Cert.Raw))
+		}
 	case "two":
 		s, err := b.signCtx("idp", "").SignEnveloped(el)
 		must(err)
@@ -94,6 +107,8 @@ func deflate(b []byte) []byte {
 var (
 	logoutShared *saml.ServiceProvider
 	logoutTrust  []string
+	// the SP pins the IdP by certificate fingerprint instead of taking certificates from metadata
+	logoutFingerprint bool
 )
 
 func (c *Ctx) runLogout(l lresp, encoding string, delay int64) {
@@ -105,6 +120,16 @@ func (c *Ctx) runLogout(l lresp, encoding string, delay int64) {
 	now := time.Now().UnixMilli()
 	setGlobals(cfg, now)
 	s := c.realSP(cfg)
+	if logoutFingerprint {
+		s.IDPMetadata.IDPSSODescriptors[0].KeyDescriptors = nil
+		sum := sha256.Sum256(c.key("idp").Cert.Raw)
+		var parts []string
+		for _, b := range sum {
+			parts = append(parts, fmt.Sprintf("%02X", b))
+		}
+		fp, alg := strings.Join(parts, ":"), "http://www.w3.org/2001/04/xmlenc#sha256"
+		s.IDPCertificateFingerprint, s.IDPCertificateFingerprintAlgorithm = &fp, &alg
+	}
 	if logoutShared != nil {
 		// the deployment refreshes the IdP's metadata (same entity, possibly new keys) on the value it keeps
 		logoutShared.IDPMetadata = s.IDPMetadata
@@ -148,7 +173,7 @@ func (c *Ctx) runLogout(l lresp, encoding string, delay int64) {
 	})
 	// abstract document
 	var dtoks []string
-	sigst := map[string]string{"none": "a", "idp": "v", "attacker": "i", "idp2": "i", "idp-then-edit": "i", "moved": "a", "two": "i"}[l.Sig]
+	sigst := map[string]string{"none": "a", "idp": "v", "attacker": "i", "idp2": "i", "idp-then-edit": "i", "moved": "a", "two": "i", "attacker+idpcert": "i", "idp+attackercert": "v"}[l.Sig]
 	if l.Sig == "idp" || l.Sig == "idp2" || l.Sig == "attacker" {
 		sigst = "i"
 		for _, t := range cfg.Trust {
@@ -280,5 +305,19 @@ func (c *Ctx) genC18() {
 		}
 	}
 	logoutShared, logoutTrust = nil, nil
+	// certificate lists in KeyInfo, under metadata trust and under fingerprint pinning: only the certificate that verifies
+	// the signature counts, and it has to be the trusted / pinned one
+	for _, fpMode := range []bool{false, true} {
+		logoutFingerprint = fpMode
+		for _, sg := range []string{"idp", "attacker", "none", "attacker+idpcert", "idp+attackercert", "idp2", "idp-then-edit"} {
+			for _, e := range encs {
+				l := base()
+				l.Sig = sg
+				c.count("c18-keyinfo-certificates", fmt.Sprintf("fingerprint=%v/%s", fpMode, sg))
+				c.runLogout(l, e, delay)
+			}
+		}
+	}
+	logoutFingerprint = false
 	_ = etree.NewDocument
 }
